@@ -122,8 +122,10 @@ def check(run):
     run.corr["cases"] += len(treq)
     run.corr["distribution"]["parsed-tree"] = len(treq)
 
-    # the text -> pairs step below that: the PEG model of asm.pest (Model/Peg.v on Gen/AsmGrammar.v)
-    # against the pest parser itself (hook etk_asm::verif_parse_pairs), well-formed and malformed texts
+    # the model from SOURCE TEXT, in three layers on the same well-formed and malformed texts: the PEG model of
+    # asm.pest (Model/Peg.v on Gen/AsmGrammar.v) against pest's pairs (hook etk_asm::verif_parse_pairs), the
+    # conversion of pairs to the tree (Model/ParseTree.v) against parse_asm (hook etk_asm::verif_parse_debug),
+    # and text -> bytes (ParseTree + Model/Asm.v) against Ingest::ingest for texts without file directives
     from checks import pegcorr
     peg_dis = pegcorr.report(run)
 
@@ -168,9 +170,9 @@ def check(run):
         run.violation_unproved("correspondence: parser's syntax tree vs the generator's tree (text -> AST step)", tree_bad[0])
     if peg_dis:
         d = peg_dis[0]
-        run.violation_unproved("correspondence: PEG model of asm.pest (Model/Peg.v) vs the pest parser (pairs of Rule::program)",
-                               dict(text=d["text"][:2000], hex=d["hex"][:4000], pest=str(d["impl"])[:1500], model=str(d["model"])[:1500], n=len(peg_dis)))
+        run.violation_unproved(pegcorr.describe(d),
+                               dict(text=d["text"][:2000], hex=d["hex"][:4000], impl=str(d["impl"])[:1500], model=str(d["model"])[:1500], n=len(peg_dis)))
     rc = asmfam.run_family(run, "C02", cases, oracle,
-                           "every mnemonic once; random programs over all zero-operand opcodes and push1..32 with boundary/random values in all radices, labels and definitions interleaved, printed with random indentation, blank lines, comments and `;` separators; each source assembled twice; a macro program with random label suffixes assembled 8 times; distinct = distinct sources; peg:*: the PEG model of asm.pest vs pest's pairs on generated programs in random layouts, programs over every statement kind of the grammar, and a malformed stream (hand-written odd texts, mutations, truncations, splices)",
+                           "every mnemonic once; random programs over all zero-operand opcodes and push1..32 with boundary/random values in all radices, labels and definitions interleaved, printed with random indentation, blank lines, comments and `;` separators; each source assembled twice; a macro program with random label suffixes assembled 8 times; distinct = distinct sources; peg:* / text:*: the model from source text (PEG model of asm.pest vs pest's pairs; Model/ParseTree.v vs parse_asm's nodes or ParseError; text -> bytes vs Ingest::ingest) on generated programs in random layouts, programs over every statement kind of the grammar, and a malformed stream (hand-written odd texts, mutations, truncations, splices)",
                            "statement encoding")
     return rc
